@@ -29,6 +29,7 @@ func runC01(p *core.Prog, r *core.Result) {
 		"R1.13 a function's environment counts as unchanged only where starlark.EqualDepth/Equal of the whole recorded and the whole current environment reported equality (not an entry-by-entry walk over one side)",
 		"R1.14 where the consumer of a source's content sum reads a 'does not exist' error as 'the source is missing' (empty sum), the directory hashing function never hands up such an error from one of its entries: every return of an entry's error is on the edge where os.IsNotExist / errors.Is(…, fs.ErrNotExist) is false - otherwise one dangling symbolic link makes the whole directory hash to the empty sum and no later edit in it is ever seen",
 		"R1.16 the sum of a source directory covers the contents of every entry: whether an entry's contents are hashed does not depend on the kind the directory listing reports for it (fs.DirEntry.Type / IsDir / Info, os.Lstat do not follow symbolic links, so a kind test on them covers every link by its name alone: an edit behind a link or a re-pointed link leaves the sum unchanged)",
+		"R1.17 an input that is taken away is a change too: Evaluate walks the dependencies the last execution recorded (targetInfo.Dependencies) and marks the dependencies out of date where one of them is not among the current ones - the function is handed its sources and dependencies, so after an entry is removed from sources=[...] (or a file glob() matched is deleted) the outputs would otherwise stay computed from the removed input",
 		"R1.15 the code and values one function references are recorded for that function alone: every argument the host pickler builds for a value is computed from that value only (no captured or package-level table in its data flow) - an object shared between two closures is written once and completed in place by the unpickler, so the captured values of all but the last closure of a def vanish from the recorded environment and an edit to them is never seen (shared with C08 R8.6)",
 		"R1.8 loading a target writes back the record read with every field but the documentation unchanged (type-driven, field by field): a failed target's pending re-run survives any number of loads that do not run it",
 	}
@@ -347,6 +348,7 @@ func runC01(p *core.Prog, r *core.Result) {
 	// ---- R1.14 a missing entry does not make its directory look missing
 	checkDirEntryErrors(p, r, "R1.14")
 	checkEntriesHashedWhateverTheirKind(p, r, "R1.16")
+	checkRemovedDependenciesSeen(p, r, "R1.17")
 
 	// ---- R1.12 every load builds its own target objects
 	checkTargetsFreshPerLoad(p, r, "R1.12")
